@@ -63,7 +63,9 @@ func c47BPGen(g *vkit.Rand, id, i int, quick bool) *c47BPCase {
 			c.MB = 16
 		}
 	} else {
-		c.MB = 32
+		// upper bound only: the flood stops when it stalls (usually after 7..12 MB; tcp_rmem lets bfe's
+		// receiving socket grow up to 32 MB in rare cases)
+		c.MB = 64
 	}
 	c.Chunk = []int{4096, 16384, 65536, 1 << 20}[g.Intn(4)]
 	c.RcvBuf = []int{4096, 16384, 65536}[g.Intn(3)]
